@@ -29,13 +29,27 @@ IMPORTS = ("From Coq Require Import Reals List Arith.\nFrom Aegean Require Impor
            "Import ListNotations.\n")
 
 
-def mkpars(comps, varies):
+ORDERS = ('canonical', 'by_kind', 'components_reversed', 'names_reversed')
+
+
+def mkpars(comps, varies, order='canonical'):
+    """order: in which sequence the parameters are ADDED to the lmfit.Parameters dict (the meaning of a parameter is its name; the finder
+    adds them component by component, other callers need not)"""
     import lmfit
     pars = lmfit.Parameters()
-    for i, (c, v) in enumerate(zip(comps, varies)):
-        for n, val, vv in zip(NAMES, c, v):
-            pars.add(f'c{i}_{n}', value=val, vary=bool(vv))
-    pars.add('components', value=len(comps), vary=False)
+    items = [(i, n, val, vv) for i, (c, v) in enumerate(zip(comps, varies)) for n, val, vv in zip(NAMES, c, v)]
+    if order == 'by_kind':
+        items.sort(key=lambda t: (NAMES.index(t[1]), t[0]))
+    elif order == 'components_reversed':
+        items.sort(key=lambda t: (-t[0], NAMES.index(t[1])))
+    elif order == 'names_reversed':
+        items.sort(key=lambda t: (t[0], -NAMES.index(t[1])))
+    if order != 'canonical':
+        pars.add('components', value=len(comps), vary=False)
+    for i, n, val, vv in items:
+        pars.add(f'c{i}_{n}', value=val, vary=bool(vv))
+    if order == 'canonical':
+        pars.add('components', value=len(comps), vary=False)
     return pars
 
 
@@ -76,7 +90,7 @@ def findiff_problem(comps, varies, x, y):
     return None
 
 
-def stderr_problem(comps, varies, rng_seed, with_B):
+def stderr_problem(comps, varies, rng_seed, with_B, order=None):
     """each free parameter's stderr must be sqrt of its own diagonal entry of inv(J^T J)"""
     from AegeanTools import fitting
     rs = np.random.RandomState(rng_seed)
@@ -117,7 +131,7 @@ def stderr_problem(comps, varies, rng_seed, with_B):
         return None, None
     if not np.all(np.isfinite(sig)) or np.linalg.cond(fisher) > 1e10:
         return None, None
-    out = fitting.covar_errors(mkpars(comps, varies), data, errs=errs, B=B, C=None)
+    out = fitting.covar_errors(mkpars(comps, varies, order or ORDERS[rng_seed % 5 % 4]), data, errs=errs, B=B, C=None)
     got = {}
     for i, v in enumerate(varies):
         for p, vv in enumerate(v):
@@ -178,7 +192,8 @@ def run(ctx, model_ok=True):
         if not any(any(v) for v in varies):
             varies[-1][0] = 1
         nfree = sum(sum(v) for v in varies)
-        msg, res = stderr_problem(comps, varies, rng.randrange(10 ** 6), with_B=(k % 2 == 0))
+        order = ORDERS[(k // 2) % 4]
+        msg, res = stderr_problem(comps, varies, rng.randrange(10 ** 6), with_B=(k % 2 == 0), order=order)
         ctx.case(key=('cov', nc, tuple(map(tuple, varies))) if (nfree > 1 or nc > 1) else None, bucket=f'components={nc}',
                  sample={'components': nc, 'vary': varies} if k < 2 else None)
         if msg:
@@ -190,24 +205,24 @@ def run(ctx, model_ok=True):
         got, sig = res
         vs = '[' + '; '.join('[' + '; '.join('true' if b else 'false' for b in v) + ']' for v in varies) + ']'
         exprs.append(f'map (fun s => (Z.of_nat (fst (fst s)), Z.of_nat (snd (fst s)), Z.of_nat (snd s))) (stderr_slots {vs})')
-        impl_slots.append((comps, varies, got, sig))
+        impl_slots.append((comps, varies, got, sig, order))
     if model_ok and exprs:
         vals, err = vlib.coq_eval(ctx, IMPORTS + 'From Coq Require Import ZArith.\n', exprs)
         if vals is None:
             ctx.oblige('model evaluation of stderr_slots', False, err)
         else:
             nbad = 0
-            for v, (comps, varies, got, sig) in zip(vals, impl_slots):
+            for v, (comps, varies, got, sig, order) in zip(vals, impl_slots):
                 for (i, p, j) in v:
                     want = sig[j]
                     have = got.get((i, p))
                     if have is None or not math.isclose(have, want, rel_tol=1e-6, abs_tol=0):
                         nbad += 1
                         if nbad <= 3:
-                            what = (f'stderr of component {i} parameter {NAMES[p]} is {have!r}; the square root of its own diagonal '
+                            what = (f'Parameters added in the order {order!r}: stderr of component {i} parameter {NAMES[p]} is {have!r}; the square root of its own diagonal '
                                     f'entry (index {j}) of the inverse Fisher matrix is {want!r}')
-                            ctx.mismatch('covar_errors vs Model.FitModel.stderr_slots', {'vary': varies}, impl=have, model=want,
-                                         is_violation={'kind': 'stderr', 'components': comps, 'vary': varies, 'what': what})
+                            ctx.mismatch('covar_errors vs Model.FitModel.stderr_slots', {'vary': varies, 'order': order}, impl=have, model=want,
+                                         is_violation={'kind': 'stderr', 'components': comps, 'vary': varies, 'order': order, 'what': what})
             ctx.oblige(f'correspondence: stderr hand-out of covar_errors equals the model slot map on {len(vals)} parameter sets',
                        nbad == 0, f'{nbad} stderr values differ')
             ctx.traces += len(vals)
@@ -249,7 +264,8 @@ def search(ctx):
             return {'kind': 'findiff', 'components': comps, 'vary': varies, 'what': msg}
         for i, c in enumerate(comps):
             c[1], c[2] = 3.0 + 3.5 * (i % 2), 3.0 + 3.5 * (i // 2)
-        m2, res = stderr_problem(comps, varies, rng.randrange(10 ** 6), with_B=False)
+        order = rng.choice(ORDERS)
+        m2, res = stderr_problem(comps, varies, rng.randrange(10 ** 6), with_B=False, order=order)
         if m2:
             return {'kind': 'whiten', 'components': comps, 'vary': varies, 'what': m2}
         if res:
@@ -259,8 +275,8 @@ def search(ctx):
                 for p, vv in enumerate(v):
                     if vv:
                         if not math.isclose(got[(i, p)], sig[j], rel_tol=1e-6):
-                            return {'kind': 'stderr', 'components': comps, 'vary': varies, 'seed': 0,
-                                    'what': f'stderr of component {i} {NAMES[p]} = {got[(i, p)]}, own diagonal entry gives {sig[j]}'}
+                            return {'kind': 'stderr', 'components': comps, 'vary': varies, 'seed': 0, 'order': order,
+                                    'what': f'Parameters added in the order {order!r}: stderr of component {i} {NAMES[p]} = {got[(i, p)]}, own diagonal entry gives {sig[j]}'}
                         j += 1
     return None
 
@@ -276,7 +292,7 @@ def replay(ctx, obj):
     xs, ys = xs.ravel(), ys.ravel()
     msg = findiff_problem(fi['components'], fi['vary'], xs, ys)
     if not msg and fi.get('kind') in ('stderr', 'whiten'):
-        msg, res = stderr_problem(fi['components'], fi['vary'], 1, with_B=False)
+        msg, res = stderr_problem(fi['components'], fi['vary'], 1, with_B=False, order=fi.get('order') or 'canonical')
         if res and not msg:
             got, sig = res
             j = 0
